@@ -88,6 +88,23 @@ func (u *U) setupState() {
 	}
 	u.must("position2", &lptypes.MsgCreatePosition{Sender: a(1), PoolId: 0, LowerTick: -100, UpperTick: 200,
 		TokenBase: coin("uaaa", 5_000_000), TokenQuote: coin("ubbb", 5_000_000), MinAmountBase: sdkmath.ZeroInt(), MinAmountQuote: sdkmath.ZeroInt()})
+	// pool states the calculation queries must also survive: positions entirely above / below the price (one-sided), a pool
+	// that never had a position, and a pool whose only position was withdrawn (reset)
+	u.must("position-above", &lptypes.MsgCreatePosition{Sender: a(2), PoolId: 2, LowerTick: 500, UpperTick: 700,
+		TokenBase: coin("uaaa", 5_000_000), TokenQuote: coin("uccc", 0), MinAmountBase: sdkmath.ZeroInt(), MinAmountQuote: sdkmath.ZeroInt()})
+	u.must("position-below", &lptypes.MsgCreatePosition{Sender: a(2), PoolId: 2, LowerTick: -700, UpperTick: -500,
+		TokenBase: coin("uaaa", 0), TokenQuote: coin("uccc", 5_000_000), MinAmountBase: sdkmath.ZeroInt(), MinAmountQuote: sdkmath.ZeroInt()})
+	u.emptyPool = uint64(len(pools))
+	u.must("pool-empty", &lptypes.MsgCreatePool{Authority: a(0), DenomBase: "ubbb", DenomQuote: "uaaa", FeeRate: "0.003", PriceRatio: "1.0001", BaseOffset: "0.5"})
+	u.resetPool = u.emptyPool + 1
+	u.must("pool-reset", &lptypes.MsgCreatePool{Authority: a(0), DenomBase: "uccc", DenomQuote: "ubbb", FeeRate: "0.003", PriceRatio: "1.0001", BaseOffset: "0.5"})
+	if resp, err, p := c.Exec(&lptypes.MsgCreatePosition{Sender: a(3), PoolId: u.resetPool, LowerTick: -50, UpperTick: 50,
+		TokenBase: coin("uccc", 1_000_000), TokenQuote: coin("ubbb", 1_000_000), MinAmountBase: sdkmath.ZeroInt(), MinAmountQuote: sdkmath.ZeroInt()}); err == nil && p == nil {
+		r := resp.(*lptypes.MsgCreatePositionResponse)
+		u.must("pool-reset-withdraw", &lptypes.MsgDecreaseLiquidity{Sender: a(3), Id: r.Id, Liquidity: r.Liquidity})
+	} else {
+		u.e.Note("setup pool-reset: %v %v", err, p)
+	}
 	// DA
 	hashes := [][]byte{bytes.Repeat([]byte{1}, 32), bytes.Repeat([]byte{2}, 32), bytes.Repeat([]byte{3}, 32)}
 	for _, uri := range []string{"ipfs://d1", "ipfs://d2"} {
@@ -700,6 +717,50 @@ func (u *U) querySection(n int) {
 		}
 		u.callQuery(q, req)
 	}
+}
+
+// liquiditypool calculation queries, structured: every pool state of setupState (in range, one-sided above / below, never
+// used, reset) x denoms x tick ranges x amounts; every position x denoms x amounts.  Deterministic grid, always run.
+func (u *U) lpCalcSection() {
+	var create, increase *qmethod
+	qs := u.queryMethods()
+	for i := range qs {
+		if strings.HasSuffix(qs[i].name, "liquiditypool.CalculationCreatePosition") {
+			create = &qs[i]
+		}
+		if strings.HasSuffix(qs[i].name, "liquiditypool.CalculationIncreaseLiquidity") {
+			increase = &qs[i]
+		}
+	}
+	denoms := []string{"uaaa", "ubbb", "uccc", "zzz", ""}
+	ticks := [][2]string{{"-10", "10"}, {"500", "700"}, {"-700", "-500"}, {"0", "1"}, {"-1", "0"}, {"-4000", "4000"}, {"10", "-10"}, {"600", "650"}}
+	amounts := []string{"0", "1", "1000", "1000000000000000000000000000000", "-1"}
+	n := 0
+	if create != nil {
+		for pool := uint64(0); pool <= u.resetPool+1; pool++ {
+			for _, d := range denoms {
+				for _, t := range ticks {
+					for _, a := range amounts {
+						req := &lptypes.QueryCalculationCreatePositionRequest{PoolId: pool, LowerTick: t[0], UpperTick: t[1], Amount: a, Denom: d}
+						u.callQuery(*create, reflect.ValueOf(req))
+						n++
+					}
+				}
+			}
+		}
+	}
+	if increase != nil {
+		for id := uint64(0); id < 12; id++ {
+			for _, d := range denoms {
+				for _, a := range amounts {
+					req := &lptypes.QueryCalculationIncreaseLiquidityRequest{Id: id, AmountIn: a, DenomIn: d}
+					u.callQuery(*increase, reflect.ValueOf(req))
+					n++
+				}
+			}
+		}
+	}
+	u.e.Stats["lpcalc.queries"] += n
 }
 
 // inputs whose cost can be unbounded; an "unbounded" verdict ends the run, so they come last
